@@ -49,6 +49,13 @@ func (r *Rng) Norm() float64 {
 
 func (r *Rng) Pick(n int) int { return r.Intn(n) }
 
+// Shuffle: Fisher-Yates
+func (r *Rng) Shuffle(n int, swap func(i, j int)) {
+	for i := n - 1; i > 0; i-- {
+		swap(i, r.Intn(i+1))
+	}
+}
+
 func pickS(r *Rng, xs []string) string { return xs[r.Intn(len(xs))] }
 func pickI(r *Rng, xs []int) int       { return xs[r.Intn(len(xs))] }
 
